@@ -314,6 +314,74 @@ Theorem C09_ex_global_gate_drops_status :
 Proof. exact @ex_global_gate_drops_status. Qed.
 Print Assumptions C09_ex_global_gate_drops_status.
 
+(* blocking put_varn as built (gate translated from ncmpio_varn.c): collective and independent, the posted request is *)
+(* completed, every element is transferred by the element rule, the call returns the conversion status *)
+Theorem C09_varn_complete :
+  forall (indep : bool) (fmt xi ii : Z) (cs : list Z),
+         Convert.varn_model indep fmt xi ii cs =
+         (fst (put_conv fmt xi ii cs), 0%Z, Convert.NC_NOERR, snd (put_conv fmt xi ii cs)).
+Proof. exact @varn_complete. Qed.
+Print Assumptions C09_varn_complete.
+
+(* the form before the repair (early return on NC_ERANGE in independent mode): witness put_varn_int -32769 -> NC_SHORT *)
+Theorem C09_varn_early_any_refuted :
+  ~
+         (forall (indep : bool) (fmt xi ii : Z) (cs : list Z),
+          Convert.varn_model_g Gen_ncx.VarnEarlyAny indep fmt xi ii cs =
+          (fst (put_conv fmt xi ii cs), 0%Z, Convert.NC_NOERR, snd (put_conv fmt xi ii cs))).
+Proof. exact @varn_early_any_refuted. Qed.
+Print Assumptions C09_varn_early_any_refuted.
+
+(* blocking mput as built (loop translated from dispatchers/var_getput.c): every variable posted and completed, every *)
+(* element transferred, NC_ERANGE iff some element is out of range *)
+Theorem C09_mput_complete :
+  forall (fmt xi ii : Z) (vars : list (list Z)),
+         (0 <= xi < 10)%Z ->
+         (0 <= ii < 11)%Z ->
+         Convert.mput_model fmt xi ii vars =
+         (if existsb (fun cs : list Z => (fst (put_conv fmt xi ii cs) =? Convert.NC_ERANGE)%Z) vars
+          then Convert.NC_ERANGE
+          else Convert.NC_NOERR, 0%Z, Convert.NC_NOERR,
+          flat_map (fun cs : list Z => snd (put_conv fmt xi ii cs)) vars).
+Proof. exact @mput_complete. Qed.
+Print Assumptions C09_mput_complete.
+
+(* the loop before the repair: witness 3 NC_SHORT variables from int, 70000 in the second *)
+Theorem C09_mput_break_any_refuted :
+  ~
+         (forall (fmt xi ii : Z) (vars : list (list Z)),
+          (0 <= xi < 10)%Z ->
+          (0 <= ii < 11)%Z ->
+          Convert.mput_model_g Gen_ncx.MputBreakAny fmt xi ii vars =
+          (if existsb (fun cs : list Z => (fst (put_conv fmt xi ii cs) =? Convert.NC_ERANGE)%Z) vars
+           then Convert.NC_ERANGE
+           else Convert.NC_NOERR, 0%Z, Convert.NC_NOERR,
+           flat_map (fun cs : list Z => snd (put_conv fmt xi ii cs)) vars)).
+Proof. exact @mput_break_any_refuted. Qed.
+Print Assumptions C09_mput_break_any_refuted.
+
+Theorem C09_ex_varn_early_any :
+  Convert.varn_model_g Gen_ncx.VarnEarlyAny true 5 2 4 ((-32769)%Z :: (-126)%Z :: nil) =
+         (Convert.NC_ERANGE, 1%Z, Convert.NC_EPENDING, (2%Z, 0%Z) :: (2%Z, 0%Z) :: nil) /\
+         Convert.varn_model_g Gen_ncx.VarnEarlyAny false 5 2 4 ((-32769)%Z :: (-126)%Z :: nil) =
+         (Convert.NC_ERANGE, 0%Z, Convert.NC_NOERR, (1%Z, (-32767)%Z) :: (0%Z, (-126)%Z) :: nil) /\
+         Convert.varn_model true 5 2 4 ((-32769)%Z :: (-126)%Z :: nil) =
+         (Convert.NC_ERANGE, 0%Z, Convert.NC_NOERR, (1%Z, (-32767)%Z) :: (0%Z, (-126)%Z) :: nil).
+Proof. exact @ex_varn_early_any. Qed.
+Print Assumptions C09_ex_varn_early_any.
+
+Theorem C09_ex_mput :
+  Convert.mput_model_g Gen_ncx.MputBreakAny 5 2 4
+           ((1%Z :: nil) :: (70000%Z :: nil) :: (2%Z :: nil) :: nil) =
+         (Convert.NC_ERANGE, 1%Z, Convert.NC_EPENDING, (0%Z, 1%Z) :: (2%Z, 0%Z) :: (2%Z, 0%Z) :: nil) /\
+         Convert.mput_model 5 2 4 ((1%Z :: nil) :: (70000%Z :: nil) :: (2%Z :: nil) :: nil) =
+         (Convert.NC_ERANGE, 0%Z, Convert.NC_NOERR,
+          (0%Z, 1%Z) :: (1%Z, (-32767)%Z) :: (0%Z, 2%Z) :: nil) /\
+         Convert.mput_model 5 2 4 ((1%Z :: nil) :: (7%Z :: nil) :: (2%Z :: nil) :: nil) =
+         (Convert.NC_NOERR, 0%Z, Convert.NC_NOERR, (0%Z, 1%Z) :: (0%Z, 7%Z) :: (0%Z, 2%Z) :: nil).
+Proof. exact @ex_mput. Qed.
+Print Assumptions C09_ex_mput.
+
 (* the rounding function of model and specification returns every value of the target format unchanged *)
 Theorem C09_rne_exact :
   forall (t : Gen_ncx.cty) (n : bool) (m e : Z),
